@@ -174,11 +174,11 @@ Proof.
     cbn [res_bind] in H; try discriminate.
   inversion H as [Hacc]. simpl.
   assert (Hn : alookup k acc = None).
-  { apply alookup_none_notin. intros Hin. rewrite Hacc in Hin. repeat apply collect_keys in Hin. apply Hk.
+  { apply alookup_none_notin. intros Hin. rewrite Hacc in Hin. apply (proj1 (collect_keys _ _)) in Hin. apply Hk.
     unfold akeys in Hin. rewrite map_map in Hin. exact Hin. }
   assert (Hm1 : merge_into acc [(k, v1)] = Ok (ainsert k v1 acc))
     by (unfold merge_into; simpl; rewrite Hn; reflexivity).
   assert (Hm2 : merge_into (ainsert k v1 acc) [(k, v2)] = Err eDupKey)
     by (unfold merge_into; simpl; rewrite alookup_ainsert, N.eqb_refl; reflexivity).
-  rewrite Hm1. cbn [res_bind]. rewrite Hm2. rewrite fold_merge_err. reflexivity.
+  rewrite Hacc in Hm1, Hm2. rewrite Hm1. cbn [res_bind]. rewrite Hm2. rewrite fold_merge_err. reflexivity.
 Qed.
